@@ -61,6 +61,10 @@ def make_files(d, thorough):
     V.write_vts(p, [0, 2, 0, 1, 0, 0], [[float(i), float(j), 0.0] for j in range(2) for i in range(3)],
                 [("p", "Float64", 1, [float(i) for i in range(6)])], [("c", "Float64", 1, [1.0, 2.0])], V.Cfg("binary"))
     out.append(("vts/binary", p, []))
+    # a point array and a cell array under the SAME name (they are different fields: "p" and "p @ <cell type>")
+    p = os.path.join(d, "namesakes.vtu")
+    V.write_vtu(p, PTS[:4], [(9, [0, 1, 2, 3])], [("p", "Float64", 1, [0.5, 1.5, 2.5, 3.5])], [("p", "Float64", 1, [10.0])], V.Cfg("ascii"))
+    out.append(("vtu/namesakes", p, []))
     # parallel: two pieces + index file
     pa, pb = os.path.join(d, "piece_0.vtu"), os.path.join(d, "piece_1.vtu")
     V.write_vtu(pa, PTS[:4], [(9, [0, 1, 2, 3])], [("p", "Float64", 1, [0.5, 1.5, 2.5, 3.5])], [("c", "Float64", 1, [10.0])], V.Cfg("ascii"))
